@@ -99,12 +99,19 @@ fn main() {
     // together walk the whole list
     let shapes = Shapes::new(Feat { cut: true, not: true, print: true, fail: true, ..Feat::default() }, 3, 2);
     let total = shapes.total();
+    let cutfam = CutFamily::new(true);
+    let repfam = RepeatFamily::new(true);
     let mut r = Rng::for_case(seed, 24, shard);
     let mut i = 0u64;
     while cnt.programs + cnt.skipped < nprog {
-        let c = if i % 3 != 2 {
+        let c = if i % 4 == 0 || i % 4 == 3 {
             let idx = (mix(seed ^ (i * nshards + shard)) % total) as u64;
             shapes.get(idx)
+        } else if i % 4 == 1 {
+            // the cut-focused and the repetition family: cuts behind every kind of node, closing
+            // groups, inside second alternatives; heads that succeed again without new bindings
+            let k = mix(seed ^ 0xC07 ^ (i * nshards + shard));
+            if k % 3 == 0 { repfam.get(k / 3 % repfam.total()) } else { cutfam.get(k / 3 % cutfam.total()) }
         } else {
             random_case(seed, 240, i * nshards + shard, Feat { cut: true, not: true, print: true, fail: true, anon: true, builtins: true })
         };
